@@ -160,7 +160,7 @@ theorem C22_counterexample_distinct :
     ¬ NeverSwallows dsem Quirks.pinned .unlimited [] qDistinct := by
   have hex : execute dsem Quirks.pinned .unlimited [] qDistinct = .ok [rowB true, rowB false] := by decide
   refine ⟨hex, fun h => ?_⟩
-  have := h _ hex ⟨false, .error .runtime⟩ (by decide)
+  have := h _ hex ⟨false, .error .runtime, false⟩ (by decide)
   exact absurd this (by decide)
 
 theorem C22_counterexample_union :
@@ -168,7 +168,7 @@ theorem C22_counterexample_union :
     ¬ NeverSwallows dsem Quirks.pinned .unlimited [] qUnion := by
   have hex : execute dsem Quirks.pinned .unlimited [] qUnion = .ok [rowB true, rowB false] := by decide
   refine ⟨hex, fun h => ?_⟩
-  have := h _ hex ⟨false, .error .runtime⟩ (by decide)
+  have := h _ hex ⟨false, .error .runtime, false⟩ (by decide)
   exact absurd this (by decide)
 
 theorem C22_counterexample_skip :
@@ -176,7 +176,7 @@ theorem C22_counterexample_skip :
     ¬ NeverSwallows dsem Quirks.pinned .unlimited [] qSkip := by
   have hex : execute dsem Quirks.pinned .unlimited [] qSkip = .ok [rowB false] := by decide
   refine ⟨hex, fun h => ?_⟩
-  have := h _ hex ⟨false, .error .runtime⟩ (by decide)
+  have := h _ hex ⟨false, .error .runtime, false⟩ (by decide)
   exact absurd this (by decide)
 
 theorem C22_counterexample_orderBy_limit :
@@ -184,7 +184,7 @@ theorem C22_counterexample_orderBy_limit :
     ¬ NeverSwallows dsem Quirks.pinned .unlimited [] qOrderLimit := by
   have hex : execute dsem Quirks.pinned .unlimited [] qOrderLimit = .ok [rowB true] := by decide
   refine ⟨hex, fun h => ?_⟩
-  have := h _ hex ⟨false, .error .runtime⟩ (by decide)
+  have := h _ hex ⟨false, .error .runtime, false⟩ (by decide)
   exact absurd this (by decide)
 
 theorem C22_counterexample_exists :
@@ -192,7 +192,7 @@ theorem C22_counterexample_exists :
     ¬ NeverSwallows dsem Quirks.pinned .unlimited [] qExists := by
   have hex : execute dsem Quirks.pinned .unlimited [] qExists = .ok [] := by decide
   refine ⟨hex, fun h => ?_⟩
-  have := h _ hex ⟨true, .error .runtime⟩ (by decide)
+  have := h _ hex ⟨true, .error .runtime, false⟩ (by decide)
   exact absurd this (by decide)
 
 /-- the same five queries on the repaired operators: the error is reported -/
